@@ -81,3 +81,11 @@ Definition timestampdiff_unit (secs_per_unit : Z) (b : date) (tb : Z) (a : date)
 Definition str_to_date_ymd (strict : bool) (y m d : Z) : option date :=
   if strict && negb ((1 <=? m) && (m <=? 12) && (1 <=? d) && (d <=? 31)) then None
   else Some (go_date y m d).
+
+(* ---------- sub-day intervals (TimeDelta.apply: t.Add(duration)) on a moment (date, microseconds of the day) ---------- *)
+Definition usday : Z := 86400000000.
+Definition add_us (dt : date) (tod n : Z) : date * Z :=
+  let tot := days_from_civil dt * usday + tod + n in (civil_from_days (tot / usday), tot mod usday).
+
+(* DATEDIFF on datetimes: DateDiff.Eval cuts both arguments to their first ten characters (the date part) *)
+Definition datediff_dt (a : date) (ta : Z) (b : date) (tb : Z) : Z := datediff_go a b.
